@@ -44,6 +44,7 @@ fn main() {
             supervisor::replay(Path::new(f), quiet)
         }
         Some("probe") => ebv::props::run_probe(&args[2..]),
+        Some("gen-seeds") => ebv::fuzzing::gen_seeds(Path::new(args.get(2).map(|s| s.as_str()).unwrap_or("../fuzz/seeds"))),
         Some("fuzz-corpus") => {
             if args.len() < 6 {
                 std::process::exit(usage());
